@@ -47,9 +47,8 @@ class ScopedDict(Generic[_Key, _Value]):
     def get(self, key: _Key, default: _Value) -> _Value: ...
 
     def get(self, key: _Key, default: _Value | None = None) -> _Value | None:
-        local = self._local_scope.get(key)
-        if local is not None:
-            return local
+        if key in self._local_scope:
+            return self._local_scope[key]
         if self.parent is None:
             return default
         return self.parent.get(key, default)
